@@ -588,6 +588,71 @@ def clause_D(check, prog, canon):
     # mask is the non-evanescent region of the same radicand
     check.require(mask[1] == '>=' and canon.is_zero(mask[3]),
                   'D-mask-is-indicator', 'trans_func mask', 'mask = (root >= 0)', loc)
+    cascade_and_labels(check, prog, canon, g, d, loc)
+
+
+def cascade_and_labels(check, prog, canon, g0, d, loc):
+    """The cascaded option: G = (plain G at d / c) ** c, and -- for every option --
+    the planes stay labelled with the distances that were asked for."""
+    from .c05 import subst
+    q = PROP + '.trans_func'
+    cf = sym('cfsp')
+
+    def decide(t):
+        if t == sym('gradient_filter'):
+            return False
+        if t[0] == 'cmp' and t[1] == '>' and cf in atoms_of(t[2]) and t[3] == num(0):
+            return True
+        if t[0] == 'call' and t[1] == 'hasattr':
+            return True
+        return None
+    it = Interp(prog, max_depth=2, decide=decide, opaque=[FOURIER + '.ft_coord'])
+    gc = it.analyze(q).ret
+    ok = gc[0] == 'bin' and gc[1] == '**'
+    detail = 'returns %s' % canon.show(gc)[:160]
+    if ok:
+        base, c = gc[2], gc[3]
+        ok = set(a for a in atoms_of(c) if a[0] == 'sym') == {cf}
+        detail = 'the power is %s' % show(c)[:80]
+        if ok:
+            want = subst(g0, {d: intern(('bin', '/', d, c))})
+            ok = canon.equal(base, want)
+            detail = 'raised to %s is %s; the plain transfer function at d / %s ' \
+                'is %s' % (show(c)[:40], canon.show(base)[:120], show(c)[:40],
+                           canon.show(want)[:120])
+    check.require(ok, 'D-cascade', 'trans_func cfsp > 0',
+                  'G = (plain G evaluated at d / c) ** c with one and the same '
+                  'c = the integer cascade factor', loc, fail_detail=detail)
+
+    # z labels: whichever options are set, the z coordinate attached to the
+    # distances is the caller's d
+    def decide2(t):
+        if t[0] == 'call' and t[1] == 'hasattr':
+            return False
+        return None
+    it = Interp(prog, max_depth=1, decide=decide2,
+                opaque=[FOURIER + '.ft_coord', 'holopy.core.utils.ensure_array'])
+    it.analyze(q)
+    zs = []
+    for c_ in it.calls:
+        if c_['name'] != 'xarray.DataArray':
+            continue
+        co = dict(c_['kwargs']).get('coords')
+        if co is not None and co[0] == 'dict':
+            for k, v in co[1]:
+                if k == ('const', 'z'):
+                    zs.append(v)
+    check.floor('z-indexed arrays built by trans_func', len(zs), 1)
+    conv = ('holopy.core.utils.ensure_array', 'numpy.array', 'numpy.asarray',
+            'numpy.atleast_1d')
+    for v in zs:
+        w = v
+        while w[0] == 'call' and w[1] in conv and len(w[2]) >= 1:
+            w = w[2][0]
+        check.require(w == d, 'D-z-labels', 'trans_func z coordinate',
+                      'the planes are labelled with the distances that were '
+                      'requested, whatever the cascade factor or gradient filter',
+                      loc, fail_detail='z = %s' % show(v)[:160])
 
 
 def clause_A3(check, prog):
